@@ -8,7 +8,8 @@ const char* const H_PROPERTY = "C18";
 
 #define MAXTH 4
 #define MAXOPS 6
-static fiber_spinlock_t lk;
+static fiber_spinlock_t* lk_p; /* heap memory with arbitrary previous contents */
+#define lk (*lk_p)
 static int nth;
 static struct {
   int n;
@@ -63,6 +64,9 @@ static NS void g_try_done(int t, int ok) {
   if (ok) g_acquired(t, 1);
   sim_progress();
 }
+static long* shared;
+static long acquisitions;
+static NS void g_acquisitions(void) { acquisitions++; }
 static NS void g_release(int t) {
   if (!occ || owner != t) sim_violation("C18-owner-mismatch", "thread %d releases a lock held by %d", t, owner);
   occ = 0;
@@ -82,9 +86,14 @@ static void* thr(void* p) {
       got = 1;
     }
     if (got) {
+      /* a plain read-modify-write of heap data inside the critical section: the next owner must see it */
+      long v = *shared;
       for (int k = 0; k < prog[t].op[i].cs; k++) sim_yield_point();
+      *shared = v + 1;
+      g_acquisitions();
       g_release(t);
       fiber_spinlock_unlock(&lk);
+      sim_tso_sync(); /* the ghost regards the lock as free from g_release on */
     }
   }
   return NULL;
@@ -105,6 +114,9 @@ void h_run(void) {
   int near_wrap = wl_pct(40);
   uint32_t start = near_wrap ? 0xFFFFFFFFu - (uint32_t)wl_int(0, 4) : 0;
   sim_describe("threads=%d ops=%d ticket_start=%#x preempt=1/%d", nth, total, start, c.preempt_inv);
+  lk_p = h_dirty_alloc(sizeof *lk_p);
+  shared = calloc(1, sizeof *shared);
+  if (wl_pct(40)) sim_tso_enable_plain();
   fiber_spinlock_init(&lk);
   lk.state.counters.ticket = start;
   lk.state.counters.users = start;
@@ -113,6 +125,7 @@ void h_run(void) {
   /* thread ids under the simulator: main is 0, created threads are 1..nth in creation order */
   for (int t = 0; t < nth; t++) pthread_create(&th[t], NULL, thr, (void*)(intptr_t)t);
   for (int t = 0; t < nth; t++) pthread_join(th[t], NULL);
+  if (*shared != acquisitions) sim_violation("C18-lost-update", "%ld critical sections incremented the shared counter, which holds %ld", acquisitions, *shared);
   if (occ) sim_violation("C18-held-at-rest", "lock still held after all threads finished");
   if (lk.state.counters.ticket != lk.state.counters.users) sim_violation("C18-state-at-rest", "ticket %u != users %u at rest", lk.state.counters.ticket, lk.state.counters.users);
   sim_finish_ok();
